@@ -14,13 +14,9 @@ one() {
   if ! (cd $T/repo && patch -p1 -s --no-backup-if-mismatch < $d/patch.diff >/dev/null 2>&1); then
     echo "$id: PATCH-DOES-NOT-APPLY"; rm -rf $T; return
   fi
-  out=""
-  for prop in C01 C02 C03 C04 C05 C06 C07 C08 C09 C10 C11 C12 C13 C14 C15 C16 C17 C18 C19 C20; do
-    res=$($BIN -property $prop -repo $T/repo -verif $T/verif 2>&1)
-    keys=$(echo "$res" | grep '^  violated:' | sed 's/^  violated: //' | paste -sd'|')
-    [ -n "$keys" ] && out="$out$prop=$keys
-"
-  done
+  res=$($BIN -sweep -repo $T/repo -verif $T/verif 2>&1)
+  out=$(echo "$res" | awk '/^  violated:/ { sub(/^  violated: /, ""); acc = acc (acc == "" ? "" : "|") $0 } /^=== / { if (acc != "") print $2 "=" acc; acc = "" }')
+  echo "$res" | grep -q '^=== C20 ' || { echo "$id: SWEEP-INCOMPLETE"; rm -rf $T; return; }
   rm -rf $T
   python3 - "$d/meta.json" "$out" <<'PY'
 import json,sys
